@@ -52,8 +52,27 @@ func (w *world) lap(what string) {
 	}
 }
 
-// family is "all multisets of <=k lines over the first n alphabet lines".
-type family struct{ n, k int }
+// family is "all multisets of <=k lines over the given alphabet lines".
+type family struct {
+	lines []int
+	k     int
+}
+
+func firstLines(n int) []int {
+	l := make([]int, n)
+	for i := range l {
+		l[i] = i
+	}
+	return l
+}
+
+func (f family) String() string {
+	ids := make([]string, len(f.lines))
+	for i, x := range f.lines {
+		ids[i] = alphabet[x].id
+	}
+	return fmt.Sprintf("<=%d lines over {%s}", f.k, strings.Join(ids, " "))
+}
 
 func buildStates(r *vlib.Run, fams []family) []*state {
 	var out []*state
@@ -61,7 +80,11 @@ func buildStates(r *vlib.Run, fams []family) []*state {
 	seenSrc := map[string]bool{}
 	merged := 0
 	for _, fam := range fams {
-		for _, src := range multisets(fam.n, fam.k) {
+		for _, pick := range multisets(len(fam.lines), fam.k) {
+			src := make([]int, len(pick))
+			for i, x := range pick {
+				src[i] = fam.lines[x]
+			}
 			if seenSrc[srcName(src)] {
 				continue
 			}
@@ -93,14 +116,16 @@ func main() {
 	w := &world{r: r, scratch: scratch, timing: os.Getenv("VERIF_C08_TIMING") != "", t0: time.Now()}
 
 	debug.SetGCPercent(800) // every ApplyDiff allocates ~10 MB of batch slices; collect less often
-	// quick: <=2 lines over the first 8 alphabet lines; thorough: <=3 over the first 7 plus <=2 over all 10
-	fams := []family{{8, 2}}
+	// quick: <=2 lines over the first 8 alphabet lines; thorough: <=3 over the first 6, <=2 over all 10,
+	// and all three nested subnets together
+	fams := []family{{firstLines(8), 2}}
 	if r.Thorough() {
-		fams = []family{{7, 3}, {len(alphabet), 2}}
+		fams = []family{{firstLines(6), 3}, {firstLines(len(alphabet)), 2}, {[]int{5, 6, 8}, 3}}
 	}
 	if v := os.Getenv("VERIF_C08_FAM"); v != "" { // development aid only
-		fams = []family{{}}
-		fmt.Sscanf(v, "%d,%d", &fams[0].n, &fams[0].k)
+		var n, k int
+		fmt.Sscanf(v, "%d,%d", &n, &k)
+		fams = []family{{firstLines(n), k}}
 	}
 	w.states = buildStates(r, fams)
 	w.lap(fmt.Sprintf("states: %d", len(w.states)))
@@ -112,6 +137,9 @@ func main() {
 		return
 	}
 	checkAlphabetDisjoint(w)
+	if dnsfix.Serial != dnsfixSerial {
+		vlib.Infra("dnsfix.Serial changed")
+	}
 
 	w.compileAll()
 	w.lap("compiled")
@@ -124,6 +152,8 @@ func main() {
 	w.lap("bfs chains")
 	w.walks(f)
 	w.lap("walks")
+	w.serialSkew(f)
+	w.lap("serial skew")
 
 	f.report(w)
 	w.evidence(fams, bfs)
